@@ -49,10 +49,73 @@ def run(ctx: Ctx):
     dispatcher(ctx)
     station_search(ctx)
     receiver_roles(ctx)
+    ctx.attempt(init_order, ctx)
     ctx.floor("GD.MEM", 10)
     ctx.floor("GD.receiver-role", 15)
     ctx.not_decided += ["consistency of configurations (a base and its station in different fleets)",
                         "controllers other than the built-in ones are covered only through the enter() guards"]
+
+
+INIT = "nrel/hive/initialization/initialize_simulation.py"
+COLLECTIONS = {"vehicles": ("Vehicle", "get_vehicles"), "bases": ("Base", "get_bases"), "stations": ("Station", "get_stations")}
+
+
+def init_order(ctx: Ctx):
+    """The memberships the guards compare are complete before the first step: the private membership that closes a home base (and its
+    charger) to everyone but its own vehicle is created by an initialisation function that walks the loaded vehicles and bases. In the
+    default pipeline every such function runs AFTER the functions that load the collections it reads -- otherwise it walks an empty
+    collection, creates nothing, and the home bases stay open to all. (Read-after-populate over the pipeline's own order.)"""
+    repo = ctx.repo
+    dif = repo.func(INIT, "default_init_functions")
+    rets = [p.value for p in flow.paths(dif.node) if p.kind == "return" and p.value is not None]
+    ctx.require(len(rets) == 1 and isinstance(rets[0], (ast.List, ast.Tuple)) and all(isinstance(e, ast.Name) for e in rets[0].elts),
+                "default_init_functions: the pipeline is not a literal list of functions")
+    order = [e.id for e in rets[0].elts]
+    m = repo.module(INIT)
+
+    def family(name):
+        f0 = m.funcs.get(name)
+        if f0 is None:
+            raise AnalysisError(f"init function {name} not found in {INIT}")
+        fam, work = [], [f0]
+        while work:
+            g = work.pop()
+            if g in fam:
+                continue
+            fam.append(g)
+            work += [h for q, h in m.funcs.items() if q.startswith(g.qualname + ".")]
+            for c in ast.walk(g.node):
+                if isinstance(c, ast.Call) and isinstance(c.func, ast.Name) and c.func.id in m.funcs and c.func.id not in order:
+                    work.append(m.funcs[c.func.id])
+        return fam
+
+    loads, reads = {}, {}
+    for name in order:
+        fam = family(name)
+        loads[name], reads[name] = set(), {}
+        for g in fam:
+            for n in ast.walk(g.node):
+                for coll, (cls, getter) in COLLECTIONS.items():
+                    if isinstance(n, ast.Call) and isinstance(n.func, ast.Attribute) and n.func.attr == "from_row" and flow.dump(n.func.value) == cls:
+                        loads[name].add(coll)
+                    if isinstance(n, ast.Attribute) and n.attr in (coll, getter) and not (isinstance(n.value, ast.Name) and n.value.id in ("config", "input_config")) \
+                            and "config" not in flow.dump(n.value):
+                        reads[name].setdefault(coll, (g, n))
+    loader_of = {c: [nm for nm in order if c in loads[nm]] for c in COLLECTIONS}
+    for c, ls in loader_of.items():
+        ctx.require(len(ls) == 1, f"default pipeline: collection {c} is loaded by {ls}")
+    n = 0
+    for i, name in enumerate(order):
+        for coll, (g, node) in sorted(reads[name].items()):
+            if coll in loads[name]:
+                continue
+            n += 1
+            j = order.index(loader_of[coll][0])
+            ctx.check(j < i, "D1", "ORD.init-order", f"default pipeline: {name} reads the {coll} after {loader_of[coll][0]} has loaded them", g, node,
+                      why_bad=f"{name} (position {i}) walks / looks up sim.{coll}, but {loader_of[coll][0]} (position {j}) loads them later: at that point the collection is empty, so what "
+                              f"{name} derives from it (the private home-base memberships) is never created and those bases and chargers stay open to every vehicle",
+                      construct=f"default_init_functions:{name}:reads:{coll}")
+    ctx.require(n >= 2, f"init_order: only {n} cross-collection reads seen")
 
 
 def pooling_helper(ctx: Ctx):
